@@ -22,6 +22,42 @@ CHECKS = {
    text="Every ordered pair of units in every dimensionality class (thorough: all 565k pairs; quick: all classes of <=40 members exhaustively, larger ones sampled) and random compound sources/targets (products, quotients, powers, constants, prefixes, plurals, inline definitions) are converted; the reported quotient x must satisfy x*val(T) = val(S) exactly with values recomputed from registry leaves by own rationals, `x T -> S` must return the coefficient, non-conformable pairs must yield QueryError::Conformance with the reciprocal flag exactly in the reciprocal case and suggestions that multiply out dimensionally.",
    note="Leaf values from Context::lookup; float-valued units excluded (counted); suggestion texts the check cannot read are counted, not reported.",
    design="§4 C03"),
+ "C04": dict(
+   level="exploration",
+   technique="property-based testing (proptest histories from a tape-driven query grammar, token soup, corpus mutation, aimed shapes, raw Unicode) with a crash/hang oracle in a supervised worker process and a static cost classifier",
+   text="Histories of 20-120 input lines (<= 500 chars) are evaluated in order on one long-lived context inside a worker process with an 8 MiB main-thread stack and a 3 GiB address-space cap; each cheap input must come back from eval, to_string, the span tree and serde_json within 20 s (re-run alone with 60 s before a hang counts); panics are caught and reported by the worker, signal deaths (stack overflow, allocation abort) and overruns by the supervisor; a sentinel query every 10th position must keep its answer. A search: absence of crashes is never established.",
+   note="Inputs are classed cheap/expensive statically (literal exponents <= 5000, digits <= 10000, every intermediate <= 2^15 bits by abstract interpretation, factorize operands of complexity <= 6); expensive ones are skipped and counted.",
+   design="§4 C04, §2.1, §2.2"),
+ "C06": dict(
+   level="exploration",
+   technique="exhaustive sweep over database units x magnitudes plus property-based testing (proptest), with an independent numeral reader and name read-back through Context::lookup as the oracle",
+   text="Plain results for every usable unit across 10^-30..10^30 and powers 1..3, base-unit products built to hit every derived-unit regrouping and the gram/tonne and bit/byte special cases, conversions with constant factors / prefixes / inline names, unit lists and every definition reply: numeral (own reader) x factor/divfactor x product of lookup(printed name)^power must equal the computed quantity exactly for exact numerals and within one last-digit unit otherwise; printed dimensionality and quantity label must be the result's.",
+   note="The computed quantity is raw_value for plain results (C01-C03 check that computation), the separately evaluated left-hand side for conversions, part x lookup(list unit) for list entries. Float-valued results skipped (counted).",
+   design="§4 C06"),
+ "C08": dict(
+   level="exploration",
+   technique="exhaustive re-evaluation of every stored definition (a metamorphic fixed-point relation) plus structural invariants, in two configurations",
+   text="Core and core+currency databases are loaded (must report nothing, including parser warnings captured from fd 1); every stored definition with a stored unit is re-evaluated in the loaded context and must equal the stored value and dimensionality; declared base units only, quantity names unique, alias chains end, docs/categories belong to existing names, categories have display names, substance properties re-evaluate, two loads give identical exact dumps.",
+   note="Currency overlay is the repo's snapshot. Substance properties that refer to sibling properties are counted, not checked.",
+   design="§4 C08"),
+ "C12": dict(
+   level="exploration",
+   technique="property-based metamorphic testing (proptest permutations and generated definition databases) comparing exact registry dumps",
+   text="The bundled definition list (thorough: also with the currency overlay) is loaded under reversal, rotations, strides, file splits and seeded uniform shuffles, and generated databases (acyclic graphs of up to 60 units with forward, prefixed and plural references, prefixes, quantities, substances, docs, categories; values known to the generator) under 4 permutations each: the canonical exact dump and the set of reported problems must equal those of the original order, and generated databases must load to the generator's independently computed values.",
+   note="Entries sharing (namespace, name) are reduced to the shipped-order winner first (the statement's premise).",
+   design="§4 C12"),
+ "C18": dict(
+   level="fault_enumeration",
+   technique="fault-sequence enumeration (all request sequences of length 1..3 over six request kinds) plus proptest-generated longer sequences with gaps, one Sandbox driver process per sequence, per-request oracle with id echo",
+   text="A test Service (add, panic, sleep, allocate, exit, large payload) runs under rink_sandbox::Sandbox in a driver process; every sequence of length <= 3 and random sequences of length 4-6 with gaps 0/50/300 ms are executed: exactly one reply per request in order, the right class of result, the request's own id echoed (no stale reply), and every request after a fault served normally by a restarted child.",
+   note="Timing inputs stay far from the limits (sleep <= limit/4 or >= 3x limit); load-sensitive deviations count only if they reproduce in 3 consecutive runs; the Ctrl-C path is not exercised.",
+   design="§4 C18"),
+ "C20": dict(
+   level="fault_enumeration",
+   technique="fault enumeration over (prior cache state x scripted HTTP server fault x entry point x kill point), kill points injected with strace at syscall entry, against the real rink binary",
+   text="The rink binary built from the working tree runs with scratch XDG dirs against a scriptable local HTTP server (complete, cut after k bytes with FIN/RST, chunked cut, header cut, error statuses, stalls, refused) and is killed at enumerated file-system syscalls; afterwards the cache bytes must be exactly the prior or the complete new contents, rink must still start, answer a non-currency query, fall back to a stale cache, and show new rates after a successful refresh.",
+   note="kill -9 semantics only (no power-fail simulation); rename(2) atomicity is trusted; falls back to server-paced kills if ptrace is unavailable (evidence says which mode ran).",
+   design="§4 C20"),
  "C05": dict(
    level="exploration",
    technique="property-based testing (proptest + boundary sweep) against an independent numeral reader (recurring blocks, exponents, fractions) in bases 2..36",
